@@ -93,7 +93,15 @@ def generate(rng, index, tier):
         th['ops'].append(worlds.op_sample(rng, flags=8, thd=None, uhdr=(1, 3), udata=[[base + 0x10, base + 0x2000, base + 5, 0]]))
         th['ops'].append(worlds.op_imap(rng, worlds.draw_uuid(rng), base))
         mapped = [t[1] for t in scn['writer'].get('tmap', []) if t[0] == th['tid']]
-        th['ops'].insert(rng.randrange(len(th['ops']) + 1), worlds.op_exec(rng, mapped[0] if mapped else rng.randrange(1, 5000), rng.ident()))
+        th['ops'].insert(rng.randrange(len(th['ops']) + 1), worlds.op_exec(rng, mapped[0] if mapped else rng.randrange(1, 5000),
+                                                                            rng.ident() if rng.chance(0.6) else rng.ident(28, 32)))      # (a name that fills the record)
+        if rng.chance(0.4):
+            # ... and the thread it announces names itself later; images are mapped after a launch has ended
+            th['ops'].append(worlds.op_newthread(rng, threads[-1]['tid'], mapped[0] if mapped else 77, rng.ident(20, 31)))
+            threads[-1]['ops'].append({'k': 'tname', 'text': rng.text(rng.pick([5, 33]), multibyte=False), 'prev': False})
+            s_l = [rng.word(), rng.word(), 0, 0]
+            th['ops'].append({'k': 'sys', 'name': 'DBG_DYLD_TIMING_LAUNCH_EXECUTABLE', 's': s_l, 'e': rng.words(), 'in': [worlds.op_imap(rng, worlds.draw_uuid(rng), base + 0x4000)]})
+            th['ops'].append(worlds.op_imap(rng, worlds.draw_uuid(rng), base + 0x8000))
     scn['cli'] = index % 12 == 0
     scn['reuse_parser'] = rng.chance(0.25)
     scn['reader'] = 'raw' if index % 5 == 2 else 'bytesio'
@@ -153,10 +161,10 @@ def _views(data, table, scn, budget=True, eio=None, deep=True, long_lived=None):
 
         def pull():
             for t in p.traces(reader(), table):
-                snaps.append((t, len(t.ktraces), str(t)))      # what was reported, at the moment it was reported
+                snaps.append((t, len(t.ktraces), str(t) + '\x00' + repr(t)))      # what was reported (text and every field), at the moment it was reported
                 yield t
         items, exc = common.drain(pull)
-        out['_changed_later'] = [(i, n0, len(t.ktraces)) for i, (t, n0, s0) in enumerate(snaps) if len(t.ktraces) != n0 or str(t) != s0]
+        out['_changed_later'] = [(i, n0, len(t.ktraces)) for i, (t, n0, s0) in enumerate(snaps) if len(t.ktraces) != n0 or str(t) + '\x00' + repr(t) != s0]
         texts = []
         for t in items:
             try:
